@@ -56,11 +56,19 @@ Section Continuous.
     unfold Rdiv at 1. rewrite Rmult_1_l. reflexivity.
   Qed.
 
+  (** [pinf] is 1/0: 0 on the reals ([Rinv_0]), so the guard [x == f64::INFINITY] never fires for x > 0 *)
+  Lemma pinf_R : pinf RO = 0.
+  Proof. unfold pinf. ro. unfold Rdiv. rewrite Rinv_0. ring. Qed.
+  Lemma Reqb_pinf_false x : 0 < x -> Reqb x (pinf RO) = false.
+  Proof. intros Hx. rewrite pinf_R. apply Reqb_false. lra. Qed.
+
   Lemma pdf_gamma_textbook a b x : 0 < x -> pdf_gamma RO Gam a b x = spec_pdf_gamma Gam a b x.
   Proof.
     intros Hx. unfold pdf_gamma, spec_pdf_gamma. ro.
     replace (Rleb x 0) with false by (symmetry; apply Rleb_false; exact Hx).
-    replace (- b * x) with (- (b * x)) by ring. reflexivity.
+    rewrite (Reqb_pinf_false x Hx). cbn [orb]. unfold Rpower.
+    replace (a * ln b + (a - 1) * ln x - b * x) with (a * ln b + ((a - 1) * ln x + - (b * x))) by ring.
+    rewrite !exp_plus. unfold Rdiv. ring.
   Qed.
   Lemma pdf_gamma_outside a b x : x <= 0 -> pdf_gamma RO Gam a b x = 0.
   Proof. intros Hx. unfold pdf_gamma. ro. replace (Rleb x 0) with true by (symmetry; apply Rleb_true; exact Hx). reflexivity. Qed.
@@ -83,11 +91,22 @@ Section Continuous.
     intros Hx. unfold pdf_chisq, spec_pdf_chisq. ro.
     replace (Rleb x 0) with false by (symmetry; apply Rleb_false; exact Hx).
     replace (Rltb x 0) with false by (symmetry; apply Rltb_false; lra).
-    rewrite andb_false_r. cbn [orb]. rewrite two_R.
-    replace (- x / 2) with (- (x / 2)) by (unfold Rdiv; ring).
-    unfold Rdiv at 1. rewrite Rmult_1_l. reflexivity.
+    rewrite andb_false_r. cbn [orb]. cbv zeta.
+    replace (Reqb x 0) with false by (symmetry; apply Reqb_false; lra).
+    rewrite (Reqb_pinf_false x Hx). rewrite two_R. unfold Rpower at 3.
+    replace ((IZR k / 2 - 1) * ln x - x / 2) with ((IZR k / 2 - 1) * ln x + - (x / 2)) by ring.
+    rewrite exp_plus. unfold Rdiv. ring.
   Qed.
-  (** at the boundary x = 0 the code returns the limit of the density for dof >= 2 (0.5 for dof = 2, 0 above): see the oracle *)
+  (** at the boundary x = 0 the code returns the limit of the density from the right for dof >= 2: 1/(2 Gam 1) for dof = 2, 0 above *)
+  Lemma pdf_chisq_at_zero k : (2 <= k)%Z -> pdf_chisq RO Gam k 0 = if (k =? 2)%Z then / (2 * Gam 1) else 0.
+  Proof.
+    intros Hk. unfold pdf_chisq. ro.
+    replace (k =? 1)%Z with false by (symmetry; apply Z.eqb_neq; lia).
+    replace (Rltb 0 0) with false by (symmetry; apply Rltb_false; lra).
+    cbn [andb orb]. cbv zeta. replace (Reqb 0 0) with true by (symmetry; apply Reqb_true; reflexivity).
+    destruct (k =? 2)%Z eqn:E; [|reflexivity]. apply Z.eqb_eq in E. subst k. rewrite two_R.
+    replace (2 / 2) with 1 by field. rewrite Rpower_1 by lra. unfold Rdiv. ring.
+  Qed.
   Lemma pdf_chisq_outside k x : x < 0 -> pdf_chisq RO Gam k x = 0.
   Proof.
     intros Hx. unfold pdf_chisq. ro.
@@ -370,13 +389,14 @@ Section Dispatch.
       apply Rmult_le_pos; left; apply HP.
     - (* ChiSquared *) unfold pdf_chisq. destruct (_ || _)%bool; [right; reflexivity|]. ro. rewrite ?two_R.
       assert (0 < IZR dof / 2) by (apply Rdiv_lt_0_compat; [apply IZR_lt; exact Hv|lra]).
-      apply Rmult_le_pos; [apply Rmult_le_pos|]; try (left; apply HP || apply HE).
-      apply div_nonneg; [lra|]. left. apply Rmult_lt_0_compat; [apply HP|apply HG; assumption].
+      assert (0 < Rpower 2 (IZR dof / 2) * Gam (IZR dof / 2)) by (apply Rmult_lt_0_compat; [apply HP|apply HG; assumption]).
+      cbv zeta. destruct (Reqb x 0); [destruct (dof =? 2)%Z; [apply div_nonneg; [lra|left; assumption]|right; reflexivity]|].
+      destruct (Reqb x (pinf RO)); [right; reflexivity|].
+      apply div_nonneg; left; [apply HE|assumption].
     - (* Exponential *) unfold pdf_exponential. ro. destruct (Rltb x 0); [right; reflexivity|].
       apply Rmult_le_pos; [lra|left; apply HE].
-    - (* Gamma *) unfold pdf_gamma. ro. destruct (Rleb x 0); [right; reflexivity|]. destruct Hv as [Ha Hb].
-      apply Rmult_le_pos; [apply Rmult_le_pos|]; try (left; apply HP || apply HE).
-      apply div_nonneg; left; [apply HP|apply HG; exact Ha].
+    - (* Gamma *) unfold pdf_gamma. ro. destruct (Rleb x 0 || Reqb x (pinf RO))%bool; [right; reflexivity|]. destruct Hv as [Ha Hb].
+      apply div_nonneg; left; [apply HE|apply HG; exact Ha].
     - (* Gumbel *) unfold pdf_gumbel. ro. apply Rmult_le_pos; [|left; apply HE]. apply div_nonneg; lra.
     - (* Normal *) unfold pdf_normal. ro. apply Rmult_le_pos; [|left; apply HE].
       apply div_nonneg; [lra|]. apply Rmult_le_pos; [exact Hv|apply sqrt_pos].
